@@ -373,7 +373,9 @@ pub fn gen_e(u: &mut Chooser, t: &T, env: &mut Env, depth: usize) -> E {
             }
             14 => {
                 let vt = simple_type(u);
-                E::Has(b(gen_e(u, &T::Map(Box::new(T::Str), Box::new(vt)), env, d)), u.pick(&FIELD_NAMES).to_string())
+                // has() is a pure presence test: a field named like a registered function is simply absent
+                let f = if u.chance(1, 4) { u.pick(&["size", "contains", "max", "string", "int"]).to_string() } else { u.pick(&FIELD_NAMES).to_string() };
+                E::Has(b(gen_e(u, &T::Map(Box::new(T::Str), Box::new(vt)), env, d)), f)
             }
             15 => {
                 let f = *u.pick(&["contains", "startsWith", "endsWith"]);
@@ -577,7 +579,14 @@ pub fn gen_e(u: &mut Chooser, t: &T, env: &mut Env, depth: usize) -> E {
                         continue;
                     }
                     keys.push(k.clone());
-                    es.push((E::Lit(k), gen_e(u, vt, env, d)));
+                    // keys are expressions too: occasionally observe their evaluation
+                    let ke = if env.logged && u.chance(1, 3) {
+                        env.next_id += 1;
+                        E::call("t", vec![E::Lit(V::Int(env.next_id)), E::Lit(k)])
+                    } else {
+                        E::Lit(k)
+                    };
+                    es.push((ke, gen_e(u, vt, env, d)));
                 }
                 E::Map(es)
             }
